@@ -156,6 +156,9 @@ tree = {
  "C12": "the monitor of the first sentence of C12 (plus: no keyword/parameter/body lexeme begins or ends with a foreign blank) on every document of /repo/testdata, every prefix up to 800 bytes, and in thorough every single-byte edit of the documents up to 400 bytes",
  "C13": "the C13 part of the same monitor (only the language's keywords are accepted, each followed by a separator) over the same corpus",
 }
+tree["C14"] = "30 INCLUDE arrangements on disk (parameters with '..', '.', an absolute path, a backslash or nothing are refused at the INCLUDE although the file they name exists; missing file; directory; cycles; one file several times; names relative to the including file; in-memory roots named \"\", api.jst, ./api.jst). Cycles through the ROOT file are rejected with the JSIGHT-in-included-file error instead of the recursion error: open known finding D29, an obligation of its own"
+tree["C07"] = "errors of three kinds in a file behind three nested INCLUDEs, and an error about a directive of the including file that surfaces while the included file is scanned (D30, found by a seeding agent, repaired): file, line and the trace innermost first"
+tree["C06"] = "two fresh processes build about 1000 corpus documents to the same catalog bytes / error texts (digest comparison)"
 for k, v in tree.items():
     claims[k]["text"] += " BOUNDED as well (reported under bounded_checks_not_counted_as_proved): " + v + "."
 for k, v in corpus.items():
